@@ -75,19 +75,19 @@
          'claims':'the hand application of the Vector::insert / Vector::erase contracts used by the level-2 units (wrappers Vector_insert_g / Vector_erase_g) produces exactly a state that satisfies the ensures macros proved by c17_vec_insert_* / c17_vec_erase_* (size, returned iterator, element-wise content, kept or fresh-and-freed storage)'}@*/
 
 /* ---- level 2: the interval-set operations (plain harness, Vector::insert/erase applied by contract) */
-/*@unit {'name':'c17_remove_c8', 'props':['C17'], 'entry':'h_remove', 'kind':'bounded', 'backend':'cadical', 'unwind':9, 'unwindset':['Zones_remove.0:6'], 'loop_contracts':False, 'defines':['NV=4','CAPV=8','L2_BY_CONTRACT'], 'cost':50,
+/*@unit {'name':'c17_remove_c8', 'props':['C17'], 'entry':'h_remove', 'kind':'bounded', 'backend':'cadical', 'unwind':9, 'loop_contracts':False, 'defines':['NV=6','CAPV=8','L2_BY_CONTRACT','L2_INV'], 'defines_quick':['NV=3','CAPV=8','L2_BY_CONTRACT','L2_INV'], 'timeout_quick':900, 'cost':50,
          'bound':'at most 4 intervals before the call in a block of capacity 8 (no reallocation); main loop unwound 6 times, helper loops 8 times, unwinding assertions on',
          'replay':'c17_zones', 'witness_defines':[], 'witness_vars':['w_n','w_x','w_xm','w_c','w_sm','w_smx','w_pos','w_posm','w_a','w_b','w_pt'],
          'claims':'Zones::remove(x,xm) on a sorted, disjoint, in-bounds interval set leaves it sorted, disjoint and in bounds; afterwards no interval contains a point of the open range (x,xm); every point offered afterwards was offered before (nothing is re-opened); every point offered before and outside [x,xm] is still offered; weight sums stay positive; only the vector changes; Vector::insert/erase are called within their contracts'}@*/
-/*@unit {'name':'c17_remove_c4', 'props':['C17'], 'entry':'h_remove', 'kind':'bounded', 'backend':'cadical', 'unwind':9, 'unwindset':['Zones_remove.0:6'], 'loop_contracts':False, 'defines':['NV=4','CAPV=4','L2_BY_CONTRACT'], 'cost':50,
+/*@unit {'name':'c17_remove_c4', 'props':['C17'], 'entry':'h_remove', 'kind':'bounded', 'backend':'cadical', 'unwind':9, 'loop_contracts':False, 'defines':['NV=4','CAPV=4','L2_BY_CONTRACT','L2_INV'], 'defines_quick':['NV=3','CAPV=4','L2_BY_CONTRACT','L2_INV'], 'timeout_quick':900, 'cost':50,
          'bound':'at most 4 intervals in an exact-size block of capacity 4: every split reallocates (storage moves, old block freed); loops as in c17_remove_c8',
          'replay':'c17_zones', 'witness_defines':[], 'witness_vars':['w_n','w_x','w_xm','w_c','w_sm','w_smx','w_pos','w_posm','w_a','w_b','w_pt'],
          'claims':'same as c17_remove_c8 when the split has to grow the vector: the iterator is re-seated on the new block and the freed block is never touched; with 4 live intervals any access past the live elements is outside the storage object'}@*/
-/*@unit {'name':'c17_insert_c8', 'props':['C17'], 'entry':'h_insert', 'kind':'bounded', 'backend':'cadical', 'unwind':9, 'unwindset':['Zones_insert.0:6'], 'loop_contracts':False, 'defines':['NV=4','CAPV=8','L2_BY_CONTRACT'], 'cost':80,
+/*@unit {'name':'c17_insert_c8', 'props':['C17'], 'entry':'h_insert', 'kind':'bounded', 'backend':'cadical', 'unwind':9, 'loop_contracts':False, 'defines':['NV=6','CAPV=8','L2_BY_CONTRACT','L2_INV'], 'defines_quick':['NV=3','CAPV=8','L2_BY_CONTRACT','L2_INV'], 'timeout_quick':900, 'cost':80,
          'bound':'at most 4 intervals before the call in a block of capacity 8; main loop unwound 6 times, helper loops 8 times',
          'replay':'c17_zones', 'witness_defines':[], 'witness_vars':['w_n','w_x','w_xm','w_c','w_sm','w_smx','w_pos','w_posm','w_a','w_b','w_pt','w_ec','w_esm','w_esmx'],
          'claims':'Zones::insert(e) (weighted insert) keeps the interval set sorted, disjoint and in bounds and does not change the set of offered points (it never re-opens an excluded position and never loses a free one); a point strictly inside an interval and strictly inside e gets exactly e added to its three cost terms, a point strictly inside an interval and outside [e.x,e.xm] keeps its cost terms; weight sums stay positive for non-negative e.sm; only the vector changes'}@*/
-/*@unit {'name':'c17_insert_c4', 'props':['C17'], 'entry':'h_insert', 'kind':'bounded', 'backend':'cadical', 'unwind':9, 'unwindset':['Zones_insert.0:6'], 'loop_contracts':False, 'defines':['NV=4','CAPV=4','L2_BY_CONTRACT'], 'cost':80,
+/*@unit {'name':'c17_insert_c4', 'props':['C17'], 'entry':'h_insert', 'kind':'bounded', 'backend':'cadical', 'unwind':9, 'loop_contracts':False, 'defines':['NV=4','CAPV=4','L2_BY_CONTRACT','L2_INV'], 'defines_quick':['NV=3','CAPV=4','L2_BY_CONTRACT','L2_INV'], 'timeout_quick':900, 'cost':80,
          'bound':'at most 4 intervals in an exact-size block of capacity 4: the first split reallocates; loops as in c17_insert_c8',
          'replay':'c17_zones', 'witness_defines':[], 'witness_vars':['w_n','w_x','w_xm','w_c','w_sm','w_smx','w_pos','w_posm','w_a','w_b','w_pt','w_ec','w_esm','w_esmx'],
          'claims':'same as c17_insert_c8 when a split has to grow the vector (iterators re-seated, freed block never touched)'}@*/
@@ -247,6 +247,7 @@ static void vec_snapshot(const Exclusions *v, const Exclusion *p)
 /* ghost wrappers through which the extracted Zones code reaches the vector */
 #ifdef L2_BY_CONTRACT
 Exclusion *g_spare;           /* the block the next growing insert will return (allocated by the harness) */
+bool g_grown;                 /* the storage has moved to the spare block (set by the Vector::insert wrapper) */
 static Exclusion nondet_excl(void)
 { Exclusion e; e.x = nondet_float(); e.xm = nondet_float(); e.c = nondet_float(); e.sm = nondet_float(); e.smx = nondet_float(); e.open = nondet_bool(); return e; }
 /* Contract application by hand.  Both contracts are functional: the ensures clauses fix the size, the capacity, the
@@ -276,6 +277,9 @@ static Exclusion *Vector_insert_g(Exclusions *v, Exclusion *p, const Exclusion x
         }
         free(old);                                                                        /* frees clause: the old block is released */
         v->m_first = nb; v->m_end = nb + 8;
+#ifdef L2_INV
+        g_grown = true;
+#endif
     } else {
         for (size_t k = VMAX - 1; k >= 1; --k)
             if (k < cap) { if (k > n) old[k] = nondet_excl(); else if (k > idx) old[k] = old[k - 1]; }
@@ -317,6 +321,14 @@ uint8 Exclusion_outcode_g(const Exclusion *self, float val);
 bool Exclusion_track_cost_g(const Exclusion *self, float *best_cost, float *best_pos, float origin);
 #endif
 
+/* The spec-side functions below only read the vector under k < size guards, with VEC_OK asserted next to every use;
+   the verifier's pointer/bounds instrumentation is switched off inside them (it multiplies the number of obligations by
+   five without checking anything about /repo).  It stays on in all extracted code, the wrappers and the harnesses. */
+#pragma CPROVER check push
+#pragma CPROVER check disable "pointer"
+#pragma CPROVER check disable "bounds"
+#pragma CPROVER check disable "pointer-primitive"
+#pragma CPROVER check disable "signed-overflow"
 /* ------------------------------------------------------------------ spec functions over an interval set (the oracle) */
 float g_pt; bool g_cov0;      /* ghost point (an arbitrary position on the axis) and whether it was offered before the call */
 int g_at0; Exclusion g_at0v;  /* index and value of the interval that contained g_pt strictly inside before the call (-1: none) */
@@ -333,6 +345,17 @@ static bool zones_wf(const Zones *z)
         prev = e->xm;
     }
     return n == 0 || prev <= z->_posm;
+}
+/* the same with the order written out for every pair (equivalent to zones_wf by transitivity; SAT solvers are poor at
+   chaining comparisons, so the loop invariants carry this closed form: element shifts then need no chaining) */
+static bool zones_wf_all(const Zones *z)
+{
+    const size_t n = VSZ(&z->_exclusions);
+    for (size_t k = 0; k < VMAX; ++k) if (k < n) {
+        if (!(z->_pos <= ZAT(z, k).x && ZAT(z, k).x < ZAT(z, k).xm && ZAT(z, k).xm <= z->_posm)) return false;
+        for (size_t m = k + 1; m < VMAX; ++m) if (m < n && !(ZAT(z, k).xm <= ZAT(z, m).x)) return false;
+    }
+    return true;
 }
 /* p is offered: it lies in one of the closed free intervals */
 static bool zones_covers(const Zones *z, float p)
@@ -387,6 +410,112 @@ static bool zones_pos_pre(const Zones *z)
 #define COST_SAME(z, at)          ((at) >= 0 && ZAT(z, at).sm == g_at0v.sm && ZAT(z, at).smx == g_at0v.smx && ZAT(z, at).c == g_at0v.c)
 #define INSERT_POST_ADD(z, at, e) (!(g_at0 >= 0 && (e).x < g_pt && g_pt < (e).xm) || COST_IS(z, at, (e).sm, (e).smx, (e).c))
 #define INSERT_POST_OUT(z, at, e) (!(g_at0 >= 0 && !((e).x <= g_pt && g_pt <= (e).xm)) || COST_SAME(z, at))
+
+
+/* ------------------------------------------------------------------ loop invariants of Zones::remove / Zones::insert (level 2) */
+#ifdef L2_INV
+Exclusion *g_first_l; size_t g_cap_l, g_n_l;      /* storage and size on loop entry */
+float g_ex0, g_exm0;                              /* insert: the clamped range of e on loop entry */
+#define STORAGE_INV(v) (VEC_OK(v) && (g_grown ? (VCAP(v) == 8 && g_spare == NULL && (v)->m_first != g_first_l) \
+                                              : (VCAP(v) == g_cap_l && (v)->m_first == g_first_l && (g_cap_l == 8 || g_spare != NULL))))
+
+/* remove(x,xm), iterator i at index j: the set is well-formed; the intervals already visited (k < j) do not meet the open
+   range (x,xm); the ghost point is offered only if it was before, and still is if it was and lies outside [x,xm]; the
+   storage has not moved and the size has not grown (a split is followed by return) */
+static bool remove_inv(const Zones *z, const Exclusion *i, const Exclusion *ie, float x, float xm)
+{
+    const Exclusions *v = &z->_exclusions;
+    if (!(STORAGE_INV(v) && !g_grown)) return false;
+    const size_t n = VSZ(v);
+    if (!(n <= g_n_l && SAME(i, v->m_first) && ie == v->m_last)) return false;
+    const size_t j = (size_t)NELEMS(OFF(i));
+    if (!(j <= n)) return false;
+    if (!(FIN(z->_pos) && FIN(z->_posm) && z->_pos <= x && x < xm && xm <= z->_posm)) return false;
+    if (!(zones_wf_all(z) && zones_cost_wf(z))) return false;
+    for (size_t k = 0; k < VMAX; ++k) if (k < j && !(ZAT(z, k).xm <= x || ZAT(z, k).x >= xm)) return false;
+    const bool cov = zones_covers(z, g_pt);
+    if (cov && !g_cov0) return false;
+    if (g_cov0 && !(x <= g_pt && g_pt <= xm) && !cov) return false;
+    return true;
+}
+static void remove_loop_enter(const Zones *z, const Exclusion *i, const Exclusion *ie, float x, float xm)
+{
+    g_first_l = z->_exclusions.m_first; g_cap_l = VCAP(&z->_exclusions); g_n_l = VSZ(&z->_exclusions); g_grown = false;
+    __CPROVER_assert(remove_inv(z, i, ie, x, xm), "remove: the loop invariant holds on entry");
+}
+/* havoc what the loop writes: the live size and every slot of the (unmoved) storage; returns the new index of i */
+static size_t remove_loop_havoc(Zones *z)
+{
+    const size_t n = nondet_size_t(), j = nondet_size_t();
+    __CPROVER_assume(n <= g_cap_l && j <= n);
+    for (size_t k = 0; k < VMAX; ++k) if (k < g_cap_l) z->_exclusions.m_first[k] = nondet_excl();
+    z->_exclusions.m_last = z->_exclusions.m_first + n;
+    return j;
+}
+static void remove_loop_step(const Zones *z, const Exclusion *i, const Exclusion *ie, float x, float xm)
+{
+    __CPROVER_assert(remove_inv(z, i, ie, x, xm), "remove: the loop invariant is preserved by one iteration");
+    __CPROVER_assume(0);
+}
+
+/* insert(e), iterator i at index j, e = the part of the range not dealt with yet */
+static bool insert_inv(const Zones *z, const Exclusion *i, const Exclusion *ie, const Exclusion *e)
+{
+    const Exclusions *v = &z->_exclusions;
+    if (!STORAGE_INV(v)) return false;
+    const size_t n = VSZ(v);
+    if (!(SAME(i, v->m_first) && ie == v->m_last)) return false;
+    const size_t j = (size_t)NELEMS(OFF(i));
+    if (!(j <= n)) return false;
+    /* e: only its left end moves (to the right end of the interval just handled); at most one split happens inside the loop,
+       and only while e.x is still the entry value */
+    if (!(FIN(z->_pos) && FIN(z->_posm) && z->_pos <= g_ex0 && g_ex0 <= e->x && FBITS(e->xm) == FBITS(g_exm0) && g_ex0 < g_exm0 && g_exm0 <= z->_posm && FIN(e->x))) return false;
+    if (!(e->x == g_ex0 ? (n == g_n_l && !g_grown) : n <= g_n_l + 1)) return false;
+    if (!(zones_wf_all(z) && zones_cost_wf(z))) return false;
+    for (size_t k = 0; k < VMAX; ++k) if (k < n) {
+        if (k < j && !(ZAT(z, k).xm <= e->x || ZAT(z, k).x >= e->xm)) return false;          /* visited: left of what remains of e, or right of e */
+        if (k >= j && e->x != g_ex0 && !(ZAT(z, k).x >= e->x)) return false;                  /* once e.x has moved nothing ahead starts before it */
+    }
+    if (zones_covers(z, g_pt) != g_cov0) return false;                                         /* the offered set never changes */
+    if (g_at0 >= 0) {                                                                          /* cost terms around the ghost point */
+        const int at = zones_at(z, g_pt);
+        const bool in_e = g_ex0 < g_pt && g_pt < g_exm0, out_e = !(g_ex0 <= g_pt && g_pt <= g_exm0);
+        if ((in_e || out_e) && at < 0) return false;
+        if (in_e && g_pt < e->x && !COST_IS(z, at, e->sm, e->smx, e->c)) return false;        /* already weighted */
+        if (in_e && g_pt >= e->x && !COST_SAME(z, at)) return false;                           /* not reached yet */
+        if (out_e && !COST_SAME(z, at)) return false;
+    }
+    return true;
+}
+static void insert_loop_enter(const Zones *z, const Exclusion *i, const Exclusion *ie, const Exclusion *e)
+{
+    g_first_l = z->_exclusions.m_first; g_cap_l = VCAP(&z->_exclusions); g_n_l = VSZ(&z->_exclusions); g_grown = false;
+    g_ex0 = e->x; g_exm0 = e->xm;
+    __CPROVER_assert(insert_inv(z, i, ie, e), "insert: the loop invariant holds on entry");
+}
+static size_t insert_loop_havoc(Zones *z, Exclusion *e)
+{
+    const size_t n = nondet_size_t(), j = nondet_size_t();
+    if (g_cap_l < 8 && nondet_bool()) {                   /* the one split inside the loop has already moved the storage */
+        Exclusion *const nb = g_spare; g_spare = NULL; __CPROVER_assume(nb != NULL);
+        free(z->_exclusions.m_first);
+        z->_exclusions.m_first = nb; z->_exclusions.m_end = nb + 8; g_grown = true;
+    }
+    const size_t cap = g_grown ? 8 : g_cap_l;
+    __CPROVER_assume(n <= cap && j <= n);
+    for (size_t k = 0; k < VMAX; ++k) if (k < cap) z->_exclusions.m_first[k] = nondet_excl();
+    z->_exclusions.m_last = z->_exclusions.m_first + n;
+    e->x = nondet_float();
+    return j;
+}
+static void insert_loop_step(const Zones *z, const Exclusion *i, const Exclusion *ie, const Exclusion *e)
+{
+    __CPROVER_assert(insert_inv(z, i, ie, e), "insert: the loop invariant is preserved by one iteration");
+    __CPROVER_assume(0);
+}
+#endif
+
+#pragma CPROVER check pop
 
 /* ------------------------------------------------------------------ extracted code: Main.h helpers */
 /*@extract {'file':'src/inc/Main.h', 'sig': r'inline T min\(const T a, const T b\)', 'emit':'static float min(const float a, const float b)'}@*/
@@ -506,6 +635,34 @@ void Zones_remove(Zones *self, float x, float xm);
    'subs':[[r'_exclusions\.(begin|end|size|clear)\(\)', r'Vector_\1(&self->_exclusions)', 0], [r'_exclusions\.(insert|erase)\(', r'Vector_\1_g(&self->_exclusions, ', 0], [r'_exclusions\.push_back\(', r'Vector_push_back(&self->_exclusions, ', 0],
            [r'\bi->outcode\(', 'Exclusion_outcode_g(i, ', 2], [r'\bi->left_trim\(', 'Exclusion_left_trim(i, ', 1], [r'\bi->split_at\(', 'Exclusion_split_at(i, ', 1]],
    'self':['_pos','_posm']}@*/
+/* The same two bodies once more, with the loop header rewritten (one generic rule on `for (INIT; COND; STEP)`) into
+   INIT; X_LOOP_PRE; for (int once_ = 1; once_ && (COND); X_LOOP_STEP(STEP)): the classic loop-invariant encoding
+   (assert the invariant on entry, havoc the loop-modified state, assume the invariant, run ONE iteration of the real
+   body, assert the invariant after the real STEP, stop).  goto-instrument --apply-loop-contracts does exactly this but
+   cannot be used here (FRAMEWORK item 5: loop contracts that write through pointers exhaust memory).  Without L2_INV the
+   macros make it the ordinary loop. */
+#ifdef L2_INV
+#define REMOVE_LOOP_PRE      do { remove_loop_enter(self, i, ie, x, xm); i = self->_exclusions.m_first + remove_loop_havoc(self); ie = self->_exclusions.m_last; __CPROVER_assume(remove_inv(self, i, ie, x, xm)); } while (0)
+#define REMOVE_LOOP_STEP(s)  ((s), remove_loop_step(self, i, ie, x, xm), once_ = 0)
+#define INSERT_LOOP_PRE      do { insert_loop_enter(self, i, ie, &e); i = self->_exclusions.m_first + insert_loop_havoc(self, &e); ie = self->_exclusions.m_last; __CPROVER_assume(insert_inv(self, i, ie, &e)); } while (0)
+#define INSERT_LOOP_STEP(s)  ((s), insert_loop_step(self, i, ie, &e), once_ = 0)
+#else
+#define REMOVE_LOOP_PRE      (void)0
+#define REMOVE_LOOP_STEP(s)  ((s), once_ = 1)
+#define INSERT_LOOP_PRE      (void)0
+#define INSERT_LOOP_STEP(s)  ((s), once_ = 1)
+#endif
+void Zones_insert_inv(Zones *self, Exclusion e);
+void Zones_remove_inv(Zones *self, float x, float xm);
+/*@extract {'file':'src/Intervals.cpp', 'sig': r'void Zones::insert\(Exclusion e\)', 'emit':'void Zones_insert_inv(Zones *self, Exclusion e)',
+   'subs':[[r'for \((iterator i = [^;]*);([^;]*);([^)]*)\)', r'\1; INSERT_LOOP_PRE; for (int once_ = 1; once_ && (\2); INSERT_LOOP_STEP(\3))', 0], [r'_exclusions\.(begin|end|size|clear)\(\)', r'Vector_\1(&self->_exclusions)', 0], [r'_exclusions\.(insert|erase)\(', r'Vector_\1_g(&self->_exclusions, ', 0], [r'_exclusions\.push_back\(', r'Vector_push_back(&self->_exclusions, ', 0],
+           [r'\be\.outcode\(', 'Exclusion_outcode_g(&e, ', 2], [r'\*i \+= e;', 'Exclusion_add(i, &e);', 3], [r'\*\+\+i \+= e;', 'Exclusion_add(++i, &e);', 1],
+           [r'\be\.left_trim\(', 'Exclusion_left_trim(&e, ', 2], [r'\bi->split_at\(', 'Exclusion_split_at(i, ', 4]],
+   'self':['_pos','_posm']}@*/
+/*@extract {'file':'src/Intervals.cpp', 'sig': r'void Zones::remove\(float x, float xm\)', 'emit':'void Zones_remove_inv(Zones *self, float x, float xm)',
+   'subs':[[r'for \((iterator i = [^;]*);([^;]*);([^)]*)\)', r'\1; REMOVE_LOOP_PRE; for (int once_ = 1; once_ && (\2); REMOVE_LOOP_STEP(\3))', 0], [r'_exclusions\.(begin|end|size|clear)\(\)', r'Vector_\1(&self->_exclusions)', 0], [r'_exclusions\.(insert|erase)\(', r'Vector_\1_g(&self->_exclusions, ', 0], [r'_exclusions\.push_back\(', r'Vector_push_back(&self->_exclusions, ', 0],
+           [r'\bi->outcode\(', 'Exclusion_outcode_g(i, ', 2], [r'\bi->left_trim\(', 'Exclusion_left_trim(i, ', 1], [r'\bi->split_at\(', 'Exclusion_split_at(i, ', 1]],
+   'self':['_pos','_posm']}@*/
 /*@extract {'file':'src/Intervals.cpp', 'sig': r'Zones::const_iterator Zones::find_exclusion_under\(float x\) const', 'emit':'const Exclusion *Zones_find_exclusion_under(const Zones *self, float x)',
    'subs':[[r'_exclusions\.(begin|end|size|clear)\(\)', r'Vector_\1(&self->_exclusions)', 0], [r'_exclusions\[p\]\.outcode\(', 'Exclusion_outcode_g(Vector_at(&self->_exclusions, p), ', 1]]}@*/
 /*@extract {'file':'src/Intervals.cpp', 'sig': r'float Zones::closest\(float origin, float & cost\) const', 'emit':'float Zones_closest(const Zones *self, float origin, float *cost)',
@@ -534,6 +691,13 @@ void Zones_remove(Zones *self, float x, float xm);
    'subs':[[r'\bremove\(', 'Zones_remove(self, ', 1], [r'\bweightedAxis\(', 'Zones_weightedAxis(self, ', 2]],
    'self':['_margin_len','_margin_weight']}@*/
 
+#ifdef L2_INV
+#define Zones_remove_L2 Zones_remove_inv
+#define Zones_insert_L2 Zones_insert_inv
+#else
+#define Zones_remove_L2 Zones_remove
+#define Zones_insert_L2 Zones_insert
+#endif
 #ifndef L2_BY_CONTRACT
 Exclusion *Vector_insert_g(Exclusions *v, Exclusion *p, const Exclusion x) { return Vector_insert(v, p, x); }
 Exclusion *Vector_erase_g(Exclusions *v, Exclusion *p) { return Vector_erase(v, p); }
@@ -707,7 +871,7 @@ void h_remove(void)
     ZONES_INPUT
     __CPROVER_assume(REMOVE_PRE(z, a, b));
     GHOST_BEFORE
-    Zones_remove(z, a, b);
+    Zones_remove_L2(z, a, b);
     __CPROVER_assert(REMOVE_POST_WF(z), "remove: the set stays sorted, disjoint and inside its bounds");
     const bool cov = zones_covers(z, g_pt);
     __CPROVER_assert(REMOVE_POST_EXCL(cov, a, b), "remove: no position of the excluded range (x,xm) is offered");
@@ -728,7 +892,7 @@ void h_insert(void)
     __CPROVER_assume(INSERT_PRE(z, e));
     GHOST_BEFORE
     __CPROVER_assume(g_at0 < 0 || (FIN(g_at0v.c) && FIN(g_at0v.smx)));       /* the exact-sum clause compares with ==; NaN/inf sums are excluded from it */
-    Zones_insert(z, e);
+    Zones_insert_L2(z, e);
     __CPROVER_assert(REMOVE_POST_WF(z), "insert: the set stays sorted, disjoint and inside its bounds");
     const bool cov = zones_covers(z, g_pt);
     __CPROVER_assert(INSERT_POST_SAME(cov), "insert: the set of offered positions is unchanged (nothing re-opened, nothing lost)");
